@@ -101,14 +101,14 @@ int main(int argc, char** argv) {
     if (argc < 7) { fprintf(stderr, "usage\n"); return 2; }
     FILE* out = fopen(argv[1], "w"); std::string prog = argv[2]; int cls = atoi(argv[3]), kmax = atoi(argv[4]), nseeds = atoi(argv[5]); unsigned long seed0 = strtoul(argv[6], nullptr, 10);
     bool first = true; long cases = 0, bad = 0; vh::Timer tm; char tmp[300]; snprintf(tmp, sizeof tmp, "%s.child", argv[1]);
-    static const int dens[4] = {1, 3, 10, 40};
+    static const int dens[8] = {1, 3, 10, 40, -1, -2, -3, -5};
     for (int k = (cls < 0 ? 0 : 1); k <= (cls < 0 ? 0 : kmax); k++) for (int sd = 0; sd < nseeds; sd++) {
         bad += forked_case(tmp, out, first, 60, [&] {
             TR.begin_exec(); TR.first = false;
             TR.emit("{\"e\":\"Reset\"}");
             TR.emit("{\"e\":\"Fault\",\"cls\":%d,\"k\":%d,\"prog\":\"%s\"}", cls, k, prog.c_str());
             F.clear(); if (cls >= 0) F.fail_at[cls] = k;
-            run_in_arena(3, seed0 + sd * 131 + k, dens[sd % 4], 6000000, [&] { program(prog); });
+            run_in_arena(3, seed0 + sd * 131 + k, dens[sd % 8], 6000000, [&] { program(prog); });
         });
         ++cases;
     }
